@@ -13,6 +13,21 @@ CHECKS = {
  "C11": ("exploration", "closed-form law oracle over an exhaustive grid of containers x access forms x indices/bounds, one execution per access",
          "Every array/string of length 0..3 (quick) / 0..5 (thorough) over several element and character classes is read, sliced and stored through every integer index in [-n-2,n+2], fractional, huge, NaN, infinite and -0 indices and all ordered pairs of slice bounds; outcome and panic kind are judged by the law in the property statement, not by reference code.",
          "Panic kind for |i| >= 2^63 may be bounds or not-an-integer; for slices with several bad bounds any applicable kind is accepted.", "DESIGN.md §7 C11"),
+ "C02": ("exploration", "outcome classifier + dynamic type-conformance monitor on the verif evaluation hook, over hostile generated programs, accepted mutants and the corpus; journalled child processes catch host crashes",
+         "Every evaluation step of thousands of accepted programs is observed through the verif hook: the value must conform to the static type of its node, any values must carry a concrete fully typed tag and a conforming non-any payload; the run may only end normally, by an Evy panic, exit, failed tests or the harness's own stop. Workers run as journalled child processes with an address-space cap so that fatal runtime errors are attributed to one input.",
+         "Hook is add-only and observational; conformance checked to depth 4 / 32 elements per step; D13/D14 are open findings (unbounded recursion, unbounded repetition).", "DESIGN.md §7 C02"),
+ "C09": ("exploration", "reference store-model trace monitor over enumerated (alias creation x update) pairs/triples and random alias programs",
+         "Alias programs create aliases in 24 ways (declaration, assignment, parameters, variadic, return, element/field store, literals, any, assertion, loop variables, slice, concatenation, repetition) for basic, composite, nested, any values and err/errmsg, update through one name in 14 ways (incl. conversions that rewrite err/errmsg) and print every live name after every step; the trace is compared with the reference store model.",
+         "Trusts harness/ref (immutable basic values, shared composites).", "DESIGN.md §7 C09"),
+ "C10": ("exploration", "reference trace monitor over the full numeric range grid and random control-flow skeletons with entry/exit prints of all visible names",
+         "All 584 numeric ranges over {-3,-1,-0.5,0,0.25,1,2.5,4}^3 in 1-, 2-, 3-argument form, and random nestings of if/else-if/else, while, four for kinds and calls with shadowing, updates of outer variables, conditional break/return, probes in loop headers, map mutation while ranging, recursion and call-before-definition; traces compared with the reference interpreter.",
+         "Trusts harness/ref; arrays are not mutated while ranged over.", "DESIGN.md §7 C10"),
+ "C12": ("exploration", "history + executable sequential model: map histories as single Evy programs, observations compared with an insertion-ordered dictionary; representation invariant on the eval hook (via C02)",
+         "All histories up to length 3 (quick) / 4 (thorough) over an 11-operation alphabet on three keys plus random histories up to length 14 with aliases, non-identifier keys, missing-key lookups and order-independent deep equality; every history prints the map, len, has and visited keys after every operation.",
+         "Sequential model ref.Map; histories are total orders (single-threaded), so no linearizability search is needed.", "DESIGN.md §7 C12"),
+ "C13": ("exploration", "reference-table monitor: one execution per (built-in, argument classes) cell; documentation examples replayed; exit status/stderr observed through the real binary",
+         "The full grid of non-graphics built-ins x argument classes (incl. NaN, infinities, -0, huge, empty and non-ASCII strings), sprintf verbs x flags x width x precision x argument types, test with 1..5 arguments, err/errmsg protocol sequences, rand by predicate, all documentation examples with evy:output, and exit status / stderr / stdout of evy run for exit, panic and test cells.",
+         "Reference table written from docs/builtins.md; undocumented regions are listed as widenings in the evidence and not judged.", "DESIGN.md §7 C13"),
  "C06": ("exploration", "metamorphic round-trip monitor: tokens, re-acceptance, tree and recorded behaviour of Format(s) vs s; evy fmt vs library",
          "For thousands of accepted sources (corpus, decorated with comments/blank lines/tabs, accepted token mutants, generated programs) compares the non-whitespace token sequence, the syntax tree and the recorded Platform trace of the formatted text with those of the source, and the real evy fmt with Program.Format.",
          "Tokens compared by (type,value); behaviour compared under fixed inputs/seed with positions stripped; lexer positions trusted only as far as C03 checks them.", "DESIGN.md §7 C06"),
